@@ -65,8 +65,9 @@ class Node:
             s.advance(300_000)
         for raw, pipe in zip(raws, pipes):
             r = chip.inject(pipe, raw)
-            if r[1] != "new":
-                raise RuntimeError("injection refused: %s" % (r,))
+            if r[1] != "new":      # the node's radio does not take a packet sent to one of its own pipe addresses
+                return dict(k="seq", role=self.role, level=self.level, addr=self.addr, raws=[list(r_) for r_ in raws], exc="Deaf",
+                            queued=0, ntx=0, sent=[], dt=0, bound=1200000, cls="seq", typ=-2, left=0)
         q0 = len(o.queue)
         self.air.log.clear()
         t0 = s.now
@@ -103,8 +104,12 @@ class Node:
             o.listen = True
             s.advance(300_000)
         r = chip.inject(pipe, raw)
-        if r[1] != "new":
-            raise RuntimeError("injection refused: %s" % (r,))
+        if r[1] != "new":          # the node's radio does not take a packet sent to one of its own pipe addresses
+            return dict(k="inj", role=self.role, level=self.level, addr=self.addr, raw=list(raw), exc="Deaf", queued=0, ntx=0, sent=[],
+                        dt=0, bound=400000, left=0, cfg=dict(addr=self.addr, lvl=0, role=self.role, allowMc=True, relay=False,
+                                                              retSys=False, parent=True, dhcp=[]),
+                        ret=0, sent_full=[], qhead=dict(**{"from": -1}, to=-1, id=-1, type=-1, msg=[]), prefix=0xCC,
+                        suffix=[0xC3, 0x3C, 0x33, 0xCE, 0x3E, 0xE3])
         q0 = len(o.queue) if hasattr(o, "queue") else 0
         cfg = dict(addr=o.node_address, lvl=o.multicast_level, role=self.role, allowMc=bool(o.allow_multicast),
                    relay=bool(o.multicast_relay), retSys=bool(o.ret_sys_msg), parent=bool(getattr(o, "allow_children", True)),
